@@ -71,8 +71,25 @@ def st_reissue(draw):
 
 
 @st.composite
+def st_flood(draw):
+    """family: three receive requests of three pairs each whose nine responses can all be waiting before the first request runs"""
+    reqs = []
+    nv = 0
+    for i in range(3):
+        tp = draw(st.sampled_from(["K", "M", "M"]))
+        ids = list(range(nv, nv + 3)) if tp == "K" else []
+        nv += 3 if tp == "K" else 0
+        reqs.append({"role": "recv", "tp": tp, "n": 3, "remote": draw(st.sampled_from([1, 2])), "sock": draw(st.sampled_from([0, 1])), "ids": ids, "reuse": False, "sub": 0,
+                     "wait": draw(st.sampled_from(["all", "single"])), "spare": 0, "c0": None})
+    ops: List[Any] = [["filler"]] * draw(st.integers(5, 8)) + [["req", 0], ["req", 1], ["req", 2], ["wait", 0], ["wait", 1], ["wait", 2], ["ret", 0], ["ret", 1], ["ret", 2]]
+    return {"reqs": reqs, "subs": [ops], "schedule": draw(st.lists(st.sampled_from([2, 2, 2, 1, 0]), min_size=10, max_size=40)), "purpose_offset": draw(st.sampled_from([0, 1])), "family": "flood"}
+
+
+@st.composite
 def st_scenario(draw):
     fam = draw(st.integers(0, 9))
+    if fam == 3:
+        return draw(st_flood())
     if fam <= 1:
         return draw(st_blocked_head())
     if fam == 2:
